@@ -31,18 +31,26 @@ def recsJson (univ : List String) (P : Kopf.C02.Store) : Json :=
 
 /-- the passes of the closed loop until no event is pending (or `fuel` turns); the FIRST turn may start with a
     carried patch (`loopStepC`) -/
-def runLoop (env : Env) (univ : List String) : Nat → Carried → State Nat → List Json → List Json × State Nat
-  | 0, _, s, acc => (acc.reverse, s)
-  | fuel + 1, cr, s, acc =>
+def runLoop (env : Env) (univ : List String) : Nat → Carried → Option (Bool × Int) → State Nat → List Json → List Json × State Nat
+  | 0, _, _, s, acc => (acc.reverse, s)
+  | fuel + 1, cr, inc, s, acc =>
       if !s.pending then (acc.reverse, s)
       else
+        -- an inconsistent turn with an empty patch is the turn taken at the deadline
+        let s := match inc with
+          | some (false, dl) => if !s.gone && !adjusting env s && env.prematch then { s with now := if s.now < dl then dl else s.now } else s
+          | _ => s
         let c := causeOf s
         let r := pass env s
-        let s' := loopStepC env cr s
-        -- does the carried patch make this turn skip the handlers?
-        let skip := cr != .none && !s.gone && !adjusting env s && env.prematch
+        let held := (match inc with | some (true, _) => true | _ => false) && !s.gone && !adjusting env s && env.prematch
+        let s' := match inc with
+          | some (ne, dl) => if held then loopStepI env ne dl s else loopStepC env cr s
+          | none => loopStepC env cr s
+        -- does the carried patch / the barrier make this turn skip the handlers?
+        let skip := held || (cr != .none && !s.gone && !adjusting env s && env.prematch)
         let row := Json.mkObj [
-          ("reason", .str (if skip then (if cr == .ops then "carried-ops" else "carried-noop")
+          ("reason", .str (if held then "inconsistent-nonempty"
+                           else if skip then (if cr == .ops then "carried-ops" else "carried-noop")
                            else if (decisionOf env s).add then "add-finalizer"
                            else if (decisionOf env s).removeUnneeded then "remove-finalizer"
                            else if env.prematch then C14.reasonStr c.reason else "blind")),
@@ -62,7 +70,7 @@ def runLoop (env : Env) (univ : List String) : Nat → Carried → State Nat →
         -- lookup re-evaluates all earlier passes, exponentially in the number of turns)
         let tbl := univ.filterMap (fun i => (s'.P i).map (fun rc => (i, rc)))
         let s'' : State Nat := { s' with P := C02.lookupD tbl }
-        runLoop env univ fuel .none s'' (row :: acc)
+        runLoop env univ fuel .none none s'' (row :: acc)
 
 /-- turns of the loop whose environment is recomputed from the state (`loopStepG envOfU`) -/
 def runG : Nat → State Nat → List Json → List Json
@@ -125,7 +133,14 @@ def handle : DrvHandler := fun op args =>
         | .ok (.str "none") => some Carried.none
         | .ok _ => none
         | .error _ => some Carried.none
-      let (rows, s) := runLoop env univ fuel carried s0 []
+      let inconsistent ← match j.getObjVal? "inconsistent" with
+        | .ok .null => some none
+        | .ok v => do
+            let ne ← jBool? (← jField? v "nonEmpty")
+            let dl ← jInt? (← jField? v "deadline")
+            pure (some (ne, dl))
+        | .error _ => some none
+      let (rows, s) := runLoop env univ fuel carried inconsistent s0 []
       some (ok (Json.mkObj [
         ("passes", .arr rows.toArray),
         ("quiescent", .bool (!s.pending)),
